@@ -501,6 +501,36 @@ func dispatch(op string, a []string) string {
 			return "OK nil" + order
 		}
 		return "OK " + showListed(q) + " base=" + hexs(q.Basename()) + " ext=" + hexs(q.Ext()) + order
+	case "diskx":
+		// list an existing directory: opts path
+		qs, err := fileseq.FindSequencesOnDisk(a[1], fileOpts(argzl(a[0]))...)
+		if err != nil {
+			return "ERR"
+		}
+		var b strings.Builder
+		b.WriteString("OK")
+		for _, q := range qs {
+			b.WriteString(" " + hexs(q.String()))
+		}
+		return b.String()
+	case "findseqx":
+		// opts pattern, on the existing file system, as seqls calls it
+		q0, err := fileseq.NewFileSequence(a[1])
+		if err != nil {
+			return "ERR"
+		}
+		path, err := q0.Format("{{dir}}{{base}}{{pad}}{{ext}}")
+		if err != nil {
+			return "ERR"
+		}
+		q, err := fileseq.FindSequenceOnDisk(path, fileOpts(argzl(a[0]))...)
+		if err != nil {
+			return "ERR"
+		}
+		if q == nil {
+			return "OK"
+		}
+		return "OK " + hexs(q.String())
 	case "sinfo":
 		// the documented seqinfo pipeline, re-done with library calls:
 		// hash1 dir base range pad ext inverted index frame template pattern
